@@ -1273,6 +1273,63 @@ def run(ctx):
         nontrivial.add(("e2e", files["tpl"]))
     stats["e2e"] = edist
 
+    # ---------------------------------------------------------------- (b4) every instantiation road (model-free)
+    import c16_paths as P
+
+    n_paths = (3000 if thorough else 300) * scale
+    pdist = {"road x expectation": {}, "column": {}, "form": {}, "way": {}, "guard": {}, "error_names_the_planted_reference": 0,
+             "error_for_another_reason": 0}
+
+    def bump(d, k):
+        d[k] = d.get(k, 0) + 1
+
+    for _ in range(n_paths):
+        book = P.gen_book(rng)
+        real = P.realise(book)
+        res = P.run_book(real["files"], real["api"])
+        v.coverage["evaluations"] += 1
+        pl = book["plant"]
+        bump(pdist["road x expectation"], book["road"] + (" / error" if real["expect"] == "error" else " / exact values"))
+        for k in ("column", "form", "way", "guard"):
+            bump(pdist[k], pl[k])
+        if real["expect"] == "error" and res[0] != "ok":
+            root = pl["ref"].split(".")[0].split("[")[0]
+            msg = str(res[2])
+            named = ("undefined" in msg or "has no attribute" in msg) and (root in msg or pl["ref"].split(".")[-1].strip("']") in msg)
+            pdist["error_names_the_planted_reference" if named else "error_for_another_reason"] += 1
+        j = P.judge(real, res)
+        if j:
+            fail(j[0], f"instantiation road: {P.describe(book)}: {j[1][:600]}",
+                 dict(fn="book", files=real["files"], expect=real["expect"], api=real["api"], what=P.describe(book)))
+        nontrivial.add(("book", real["files"].get(pl["sheet"] or "data", ""), book["road"], book["main_mode"]))
+    stats["instantiation_roads"] = pdist
+
+    # ---------------------------------------------------------------- (b5) histories on one long-lived ContentIndexParser
+    n_hist = (400 if thorough else 40) * scale
+    hdist = {"calls": {}, "lengths": {}, "histories_with_failing_and_delivering_calls": 0, "histories_uniform": 0, "workbook_does_not_load": 0}
+    for _ in range(n_hist):
+        book = P.history_book(rng)
+        ops = P.gen_ops(rng, book, rng.choice([3, 4, 5, 6]))
+        res = P.run_history(book, ops)
+        if res is None:
+            hdist["workbook_does_not_load"] += 1
+            continue
+        v.coverage["evaluations"] += len(res)
+        bump(hdist["lengths"], len(res))
+        for op, exp, got, fresh in res:
+            bump(hdist["calls"], op[0] + (" / error" if exp == "error" else " / exact values"))
+        mixed = len({e == "error" for _, e, _, _ in res}) == 2
+        hdist["histories_with_failing_and_delivering_calls" if mixed else "histories_uniform"] += 1
+        j = P.judge_history(res)
+        if j:
+            fail(j[0], f"one ContentIndexParser, calls {ops}: {P.describe(book)}: {j[1][:600]}",
+                 dict(fn="history", book=book, ops=ops, what=P.describe(book)))
+        nontrivial.add(("history", repr(ops), P.describe(book)))
+    stats["parser_histories"] = hdist
+
+    # ---------------------------------------------------------------- (b6) histories on one long-lived CellParser / RowParser
+    stats["cell_histories"] = cell_histories(ctx, fail, (300 if thorough else 40) * scale, nontrivial)
+
     v.coverage["distinct_nontrivial"] = len(nontrivial)
     v.coverage["rule"] = (
         "planted-name families (28 evaluated positions + 24 positions inside list/tuple/dict literals, text and native, x 4 names must fail; "
@@ -1284,7 +1341,13 @@ def run(ctx):
         "run through parse_as_string/parse on model (policy = regenerated constants) and implementation, plus the spy oracle on every "
         "name the cell mentions and the context lacks; raw malformed cells (implementation oracle only); generated sheets "
         "(loops/blocks/include_if, depth <= 2) model vs FlowParser incl. the instantiate-call log; create_flows workbooks for every "
-        "way a name can be missing. non-trivial = distinct (cell text, context) inside the sub-language, distinct sheet, distinct exact-case")
+        "way a name can be missing; instantiation roads (c16_paths): ONE planted reference (18% defined, else unknown in one of 13 ways, 30% of "
+        "those in an un-evaluated position) in a generated column / form of a generated workbook, reached through create_flow plain / single / "
+        "bulk, insert_as_block depth 1 and 2 (own data row or not, inside a loop or not), TemplateSheetParser, and cells read with the empty "
+        "context, expectation (error | exact messages of every flow) from a reference interpreter; histories of _parse_flow / get_node_group / "
+        "parse_all_flows calls on ONE ContentIndexParser, failing calls in between, every call against the interpreter; histories of cells and rows "
+        "on ONE CellParser / RowParser against fresh ones and the known answers. "
+        "non-trivial = distinct (cell text, context) inside the sub-language, distinct sheet, distinct exact-case, distinct workbook, distinct history")
     v.coverage["samples"] = [repr(x)[:160] for x in list(sorted(nontrivial, key=repr))[:: max(1, len(nontrivial) // 5)][:5]]
     v.assumptions += [
         "Jinja2 outside the mini-language is not modelled (filters other than escape, tests, set, macros, arithmetic, globals as values)",
@@ -1295,6 +1358,112 @@ def run(ctx):
         "spy oracle: an object bound to the name sees every operation Jinja performs on that name's value",
         "pydantic data-row models behave like dicts for attribute access in the end-to-end cases (field names chosen outside pydantic's API)",
     ]
+
+
+# ------------------------------------------------------------------ histories on long-lived CellParser / RowParser objects
+HIST_CTX = {"name": "Ann", "row": {"k": "v"}, "lst": ["p", "q"], "flag": False, "yes": True, "n": 2}
+
+
+def history_pool():
+    """(text, context, mode, expectation): 'error' | ('value', v) — answers known by construction"""
+    E, V = "error", lambda x: ("value", x)
+    pool = [
+        ("{{ missing }}", HIST_CTX, 0, E), ("Hello {{ nickname }}!", HIST_CTX, 0, E), ("{% if missing %}a{% else %}b{% endif %}", HIST_CTX, 0, E),
+        ("{% for q in missing %}q{% endfor %}", HIST_CTX, 0, E), ("{{ row.missing }}", HIST_CTX, 0, E), ("{{ missing | upper }}", HIST_CTX, 0, E),
+        ("{@ missing @}", HIST_CTX, 1, E), ("{@ [n, missing] @}", HIST_CTX, 1, E), ("{{ name }}{{ missing }}", HIST_CTX, 0, E),
+        ("{{ missing }}", {}, 0, E), ("{{ name }}", {}, 0, E), ("{{ name }}", {"other": 1}, 0, E), ("{{ lst[7] }}", HIST_CTX, 0, E),
+        ("{% set z = missing %}{{ z }}", HIST_CTX, 0, E),
+        ("{{ name }}", HIST_CTX, 0, V("Ann")), ("Hello {{ name }}!", HIST_CTX, 0, V("Hello Ann!")), ("{% if flag %}{{ missing }}{% else %}b{% endif %}", HIST_CTX, 0, V("b")),
+        ("{{ row.k }}", HIST_CTX, 0, V("v")), ("{@ lst @}", HIST_CTX, 1, V(["p", "q"])), ("{@ n @}", HIST_CTX, 1, V(2)), ("plain", HIST_CTX, 0, V("plain")),
+        ("a;b", HIST_CTX, 1, V(["a", "b"])), ("{{ name }}", {"name": "Bob"}, 0, V("Bob")), ("{{ missing }}", {"missing": "now defined"}, 0, V("now defined")),
+        ("{{ missing }}", None, 0, V("{{ missing }}")), ("{{ flag and missing }}", HIST_CTX, 0, V("False")), ("{{ name | upper }}", HIST_CTX, 0, V("ANN")),
+        ("{% for q in lst %}{{ q }}{% endfor %}", HIST_CTX, 0, V("pq")), ("{{ nickname }}", {"nickname": ""}, 0, V("")),
+    ]
+    return pool
+
+
+def cell_histories(ctx, fail, n, nontrivial):
+    """Sequences of cells on ONE CellParser, and of rows on ONE RowParser / SheetParser sharing it: every result must be the
+    known answer and what a fresh object gives — whatever was parsed before (failing cells, the same cell, the same name defined)."""
+    from typing import List
+
+    import tablib
+    from rpft.parsers.common.cellparser import CellParser
+    from rpft.parsers.common.rowparser import ParserModel, RowParser
+    from rpft.parsers.common.sheetparser import SheetParser
+
+    class M(ParserModel):
+        s: str = ""
+        l: list = []
+        ls: List[str] = []
+
+    rng, v = ctx.rng, ctx.v
+    pool = history_pool()
+    dist = {"calls": 0, "expected_error": 0, "expected_value": 0, "repeats_of_an_earlier_call": 0, "kinds": {}, "lengths": {}}
+    for _ in range(n):
+        cp = CellParser()
+        rp = RowParser(M, cp)
+        ops = []
+        for _ in range(rng.choice([4, 6, 8, 12])):
+            if ops and rng.random() < 0.3:
+                ops.append(rng.choice(ops))
+                dist["repeats_of_an_earlier_call"] += 1
+            else:
+                ops.append((rng.choice(["cell", "cell", "row", "sheet"]), rng.randrange(len(pool))))
+        dist["lengths"][len(ops)] = dist["lengths"].get(len(ops), 0) + 1
+        hist = []
+        for kind, k in ops:
+            text, c, mode, exp = pool[k]
+            v.coverage["evaluations"] += 1
+            dist["calls"] += 1
+            dist["kinds"][kind] = dist["kinds"].get(kind, 0) + 1
+            dist["expected_error" if exp == "error" else "expected_value"] += 1
+            hist.append([kind, text, c, mode])
+            got = _hist_call(kind, cp, rp, M, text, c, mode)
+            want = "error" if exp == "error" else _hist_value(kind, exp[1], mode)
+            if got != want:
+                fresh_cp = CellParser()
+                fresh = _hist_call(kind, fresh_cp, RowParser(M, fresh_cp), M, text, c, mode)
+                note = " (a fresh parser gives the right answer: the result depends on the calls before)" if fresh == want else ""
+                key = "missing-name-renders" if exp == "error" else "defined-not-exact"
+                fail(key, f"call {len(hist) - 1} of a history on one CellParser/RowParser: {kind} {text!r} with {c!r} -> {got!r}, expected {want!r}{note}",
+                     dict(fn="cellhistory", history=hist, expect=want))
+                break
+        nontrivial.add(("cellhistory", repr(ops)))
+    return dist
+
+
+def _hist_value(kind, value, mode):
+    """what the known value of a cell becomes on the road `kind`"""
+    if kind == "cell":
+        return ("ok", value)
+    # row / sheet: the cell is the `s` (mode 0) or `l` (mode 1) field of a row model
+    if mode == 0:
+        return ("ok", str(value))
+    return ("ok", list(value) if isinstance(value, list) else [value])
+
+
+def _hist_call(kind, cp, rp, M, text, c, mode):
+    import tablib
+    from rpft.parsers.common.sheetparser import SheetParser
+
+    cc = None if c is None else py_ctx(c)
+    if kind == "cell":
+        r = run_cli_mode(cp.parse_as_string if mode == 0 else cp.parse, text, cc)
+        return ("ok", canon(r[1])) if r[0] == "ok" else "error"
+    field = "s" if mode == 0 else "l"
+    if kind == "row":
+        r = run_cli_mode(rp.parse_row, {field: text}, cc)
+    else:
+        def go():
+            t = tablib.Dataset(headers=[field])
+            t.append([text])
+            sp = SheetParser(rp, t, context=cc if cc is not None else {})
+            return sp.parse_next_row(omit_templating=cc is None)
+        r = run_cli_mode(go)
+    if r[0] != "ok":
+        return "error"
+    return ("ok", canon(getattr(r[1], field)))
 
 
 def collapse_star(rend):
@@ -1357,6 +1526,39 @@ def replay(rep):
     if r["fn"] == "sheetplanted":
         _, res = impl_sheet(r["csv"], r["ctx"])
         return res[0] == "err" if r["expect"] == "error" else (res[0] == "ok" and res[1] == r["expect"])
+    if r["fn"] == "book":
+        import c16_paths as P
+        res = P.run_book(r["files"], r.get("api"))
+        j = P.judge(dict(expect=r["expect"]), res)
+        if j:
+            print("  ", j[0], ":", j[1][:600])
+        return j is None
+    if r["fn"] == "history":
+        import c16_paths as P
+        res = P.run_history(r["book"], r["ops"])
+        j = P.judge_history(res) if res is not None else None
+        if j:
+            print("  ", j[0], ":", j[1][:600])
+        return j is None
+    if r["fn"] == "cellhistory":
+        from typing import List
+
+        from rpft.parsers.common.rowparser import ParserModel, RowParser
+
+        class M(ParserModel):
+            s: str = ""
+            l: list = []
+            ls: List[str] = []
+
+        rp = RowParser(M, cp)
+        got = None
+        for kind, text, c, mode in r["history"]:
+            got = _hist_call(kind, cp, rp, M, text, c, mode)
+        want = r["expect"] if r["expect"] == "error" else tuple(r["expect"])
+        got = got if got == "error" else tuple(got)
+        if got != want:
+            print("   last call of the history gives", got, "expected", want)
+        return got == want
     if r["fn"] == "sheet":
         iev, _ = impl_sheet(r["csv"], r["ctx"])
         bad = []
